@@ -11,8 +11,8 @@
  * word), bits/rowstride either top-down or bottom-up (negative rowstride).
  *
  * Direct build: image->bits points at the pixel memory in_mem[].
- * Accessor build: image->bits points at a DECOY area (filled with the
- * complement of the pixel data); the pixel memory proper lives VF_WORDS words
+ * Accessor build: image->bits points at a DECOY area (arbitrary content in_decoy[],
+ * so in particular different from the pixel data); the pixel memory proper lives VF_WORDS words
  * further up and is reachable only through read_func/write_func, which add
  * that displacement (a memory-faithful model of a mapped frame buffer).  Any
  * access that bypasses the callbacks reads decoy data or writes into the
@@ -29,6 +29,7 @@
 #endif
 #include "spec_format.h"
 #include "vh.h"
+#include "link_stubs.h"
 
 #define VF_CAT2(a, b) a##b
 #define VF_CAT(a, b) VF_CAT2 (a, b)
@@ -56,22 +57,35 @@
              name[i_] = (type) VH_GET_I (b_); } } while (0)
 #endif
 
-/* ---- palette for the indexed formats ---- */
+/* ---- palette for the indexed formats ----
+ * read side (fetch jobs): one never-written nondeterministic pixman_indexed_t = every palette
+ *   (native replay uses a palette in which different indices give different entries).
+ * write side (store jobs, -DVF_PAL_FIXED): a symbolic 32 KB ent[] table does not get through the
+ *   SAT back end (> 10 min, 4 GB per query: the code reaches it through a pixman_image_t * cast),
+ *   so ent[] is the literal pseudo-random table of palette_fixed.h, identical under CBMC and natively. */
 #if SF_KIND (VF) != SF_K_RGB
 #define VF_INDEXED 1
-static pixman_indexed_t vf_pal;
-static void vf_pal_setup (void)
-{
-#ifdef VH_CBMC
-    pixman_indexed_t any;          /* every palette */
-    vf_pal = any;
+#if defined (VH_CBMC) && !defined (VF_PAL_FIXED)
+/* one never-written nondeterministic object: every palette */
+#define VF_DECL_PAL   pixman_indexed_t vf_pal_any; const pixman_indexed_t *vf_palp = &vf_pal_any
+#elif defined (VF_PAL_FIXED)
+/* the literal pseudo-random palette of palette_fixed.h, the same under CBMC and natively */
+#include "palette_fixed.h"
+#define VF_DECL_PAL   const pixman_indexed_t *vf_palp = &vf_pal0
 #else
+static pixman_indexed_t vf_pal0;
+#define VF_DECL_PAL   const pixman_indexed_t *vf_palp = vf_replay_palette ()
+static const pixman_indexed_t *vf_replay_palette (void)
+{
     /* native replay: a palette in which different indices give different entries */
     int i;
-    for (i = 0; i < 256; i++) vf_pal.rgba[i] = 0x9e3779b1u * (uint32_t) (i + 1);
-    for (i = 0; i < 32768; i++) vf_pal.ent[i] = (uint8_t) (i ^ (i >> 5) ^ (i >> 10));
-#endif
+    for (i = 0; i < 256; i++) vf_pal0.rgba[i] = 0x9e3779b1u * (uint32_t) (i + 1);
+    for (i = 0; i < 32768; i++) vf_pal0.ent[i] = (uint8_t) (i ^ (i >> 5) ^ (i >> 10));
+    return &vf_pal0;
 }
+#endif
+#define vf_pal (*vf_palp)
+#define VF_PAL_SETUP() do { vf_image.indexed = vf_palp; } while (0)
 #define VF_SPEC_FETCH(raw)  (vf_pal.rgba[(raw)])
 #if SF_KIND (VF) == SF_K_GRAY
 #define VF_SPEC_STORE(v)    ((uint32_t) vf_pal.ent[SF_KEY_GRAY (v)] & SF_PIXMASK (VF))
@@ -81,6 +95,8 @@ static void vf_pal_setup (void)
 #define VF_DEFMASK          SF_PIXMASK (VF)
 #else
 #define VF_INDEXED 0
+#define VF_DECL_PAL
+#define VF_PAL_SETUP() do { } while (0)
 #define VF_SPEC_FETCH(raw)  SF_WIDEN_PIX (VF, raw)
 #define VF_SPEC_STORE(v)    SF_NARROW_PIX (VF, v)
 #define VF_DEFMASK          SF_DEFMASK (VF)
@@ -121,20 +137,29 @@ static uint32_t vf_area[VF_WORDS];
 #define VF_BASE  vf_area
 #endif
 
+/* (a bits_image_t, not the pixman_image_t union: CBMC keeps struct fields such as write_func constant,
+ * a union would make every indirect WRITE fan out over all address-taken functions) */
 static bits_image_t vf_image;
 
-/* fills the memory from in_mem, builds the image; in_up != 0: bottom-up image */
+/* fills the pixel memory from in_mem (and, accessor build, the decoy from in_decoy),
+ * builds the image; in_up != 0: bottom-up image.  memcpy, not loops: the only loops
+ * left in a job are those of the code under check. */
+#ifdef VF_ACC
+#define VF_DECL_DECOY VF_IN_ARRAY (vh_u32, in_decoy, VF_WORDS)
 #define VF_SETUP(in_mem, in_up)                                                      \
-    do { int w_;                                                                     \
-         for (w_ = 0; w_ < VF_WORDS; w_++) VF_MEM[w_] = in_mem[w_];                  \
-         vf_setup_image (in_up); } while (0)
+    do { memcpy (VF_MEM, in_mem, 4 * VF_WORDS);                                      \
+         memcpy (vf_area, in_decoy, 4 * VF_WORDS);                                   \
+         vf_setup_image (in_up); VF_PAL_SETUP (); } while (0)
+#else
+#define VF_DECL_DECOY
+#define VF_SETUP(in_mem, in_up)                                                      \
+    do { memcpy (VF_MEM, in_mem, 4 * VF_WORDS);                                      \
+         vf_setup_image (in_up); VF_PAL_SETUP (); } while (0)
+#endif
 
 static void vf_setup_image (int up)
 {
 #ifdef VF_ACC
-    int w;
-    for (w = 0; w < VF_WORDS; w++)
-        vf_area[w] = ~vf_area[VF_WORDS + w];
     vf_image.read_func = vf_read;
     vf_image.write_func = vf_write;
 #else
@@ -155,12 +180,7 @@ static void vf_setup_image (int up)
         vf_image.bits = VF_BASE;
         vf_image.rowstride = VF_ROWW;
     }
-#if VF_INDEXED
-    vf_pal_setup ();
-    vf_image.indexed = &vf_pal;
-#else
     vf_image.indexed = 0;
-#endif
 }
 
 /* byte view of image row y in the pixel memory, by the definition of bits/rowstride:
@@ -174,7 +194,7 @@ static void vf_setup_image (int up)
 #ifdef VF_ACC
 #define VF_CHECK_ACC(in_mem, gw)                                                              \
     do { VH_CHECK ("acc.callback_sizes_are_1_2_4", !vf_bad_size);                             \
-         VH_CHECK ("acc.no_direct_write", vf_area[(gw)] == ~in_mem[(gw)]);                    \
+         VH_CHECK ("acc.no_direct_write", vf_area[(gw)] == in_decoy[(gw)]);                    \
     } while (0)
 #else
 #define VF_CHECK_ACC(in_mem, gw) do { } while (0)
